@@ -74,8 +74,9 @@ DistinctNames(ps) == \A i, j \in 1..Len(ps) : i # j => ps[i][1] # ps[j][1]
 (* split_host_and_port: regex ^(.+):(\d+)$ on strings without line breaks and with ASCII digits *)
 HostPort(s) ==
     LET i == LastIndexOf(s, 58) IN
-    IF i > 1 /\ i < Len(s) /\ AllDigits(SubSeq(s, i + 1, Len(s))) /\ Len(s) - i <= 9
-    THEN [v |-> [host |-> SubSeq(s, 1, i - 1), port |-> DecVal(SubSeq(s, i + 1, Len(s)))]]
+    IF i > 1 /\ i < Len(s) /\ AllDigits(SubSeq(s, i + 1, Len(s)))
+    THEN (IF Len(s) - i <= 9 THEN [v |-> [host |-> SubSeq(s, 1, i - 1), port |-> DecVal(SubSeq(s, i + 1, Len(s)))]]
+          ELSE [anystr |-> 1])              \* port beyond TLC's 32-bit integers: only "returns" is required
     ELSE [v |-> [host |-> s, port |-> -1]]
 
 ----------------------------------------------------------------------------
@@ -250,6 +251,7 @@ Accept(fn, x, obs) ==
         IF fn = "url_concat" THEN "v" \in DOMAIN obs /\ UrlConcatOk(x, obs.v)
         ELSE "v" \in DOMAIN obs                                  \* Total: returned, did not raise
     ELSE IF "anybool" \in DOMAIN r THEN "v" \in DOMAIN obs /\ obs.v \in BOOLEAN
+    ELSE IF "anystr" \in DOMAIN r THEN "v" \in DOMAIN obs
     ELSE obs = r
 
 Obs(a, args) == [act |-> a, args |-> args, exp |-> Results(cfg'.kind, inp')]
